@@ -2010,6 +2010,46 @@ func (m *modFacts) earlyExits(root, path string) (out []genesisEarlyExit) {
 			})
 		}
 		walk(fd.Body, false)
+		// a loop iteration skipped with `continue` (an element of a collection that is not exported / not imported)
+		var walkC func(n ast.Node, inLoop bool)
+		walkC = func(n ast.Node, inLoop bool) {
+			ast.Inspect(n, func(q ast.Node) bool {
+				switch x := q.(type) {
+				case *ast.FuncLit:
+					walkC(x.Body, false)
+					return false
+				case *ast.ForStmt:
+					walkC(x.Body, true)
+					return false
+				case *ast.RangeStmt:
+					walkC(x.Body, true)
+					return false
+				case *ast.BranchStmt:
+					if x.Tok == token.CONTINUE && inLoop {
+						add(x.Pos(), "loop iteration skipped with continue")
+					}
+				}
+				return true
+			})
+		}
+		walkC(fd.Body, false)
+		// a successful return of the function itself before its last statement (the collections after it are left out)
+		if fd.Body != nil && len(fd.Body.List) > 0 && fd.Type.Results != nil {
+			last := fd.Body.List[len(fd.Body.List)-1]
+			ast.Inspect(fd.Body, func(q ast.Node) bool {
+				if _, ok := q.(*ast.FuncLit); ok {
+					return false
+				}
+				rs, ok := q.(*ast.ReturnStmt)
+				if !ok || rs == last || len(rs.Results) == 0 {
+					return true
+				}
+				if isIdent(rs.Results[len(rs.Results)-1], "nil") {
+					add(rs.Pos(), "successful return before the end of the function")
+				}
+				return true
+			})
+		}
 	}
 	return
 }
